@@ -195,6 +195,41 @@ type outcome struct {
 	Panic *fw.Panic
 }
 
+// lastOut: the matrices / vectors (library objects) returned by the most recent
+// successful call; twoCalls keeps them to verify that a later call through the
+// same InSitu struct, after the caller replaced the result buffers, leaves them alone.
+var lastOut []any
+
+func outs(xs ...any) []any {
+	var r []any
+	for _, x := range xs {
+		switch v := x.(type) {
+		case ad.Matrix:
+			if !isNil(v) {
+				r = append(r, v)
+			}
+		case ad.Vector:
+			if v != nil {
+				r = append(r, v)
+			}
+		}
+	}
+	return r
+}
+
+func snapOut(xs []any) [][]float64 {
+	var r [][]float64
+	for _, x := range xs {
+		switch v := x.(type) {
+		case ad.Matrix:
+			r = append(r, read(v).A)
+		case ad.Vector:
+			r = append(r, readVec(v))
+		}
+	}
+	return r
+}
+
 func ticksNow() int64 {
 	s := int64(0)
 	for _, site := range fw.TickSites() {
@@ -227,6 +262,7 @@ func iterFactor(n int) float64 {
 // guard runs f under the loop budget; returns a verdict for rejection / no-return.
 func guard(budget int64, f func() error) (verdict, bool) {
 	var err error
+	lastOut = nil
 	t0, s0 := ticksNow(), siteTicks()
 	fw.SetTickBudget(budget)
 	p := fw.Call(func() { err = f() })
@@ -396,6 +432,7 @@ func runCholesky(t elemT, A *la.Mat, mode string, is *cholesky.InSitu) verdict {
 	if v, ok := guard(0, func() error {
 		l, d, err := cholesky.Run(build(t, A), args...)
 		if err == nil {
+			lastOut = outs(l, d)
 			L = read(l)
 			if mode != "plain" {
 				if isNil(d) {
@@ -479,6 +516,7 @@ func runGramSchmidt(t elemT, A *la.Mat, is *gramSchmidt.InSitu) verdict {
 	if v, ok := guard(0, func() error {
 		q, r, err := gramSchmidt.Run(build(t, A), args...)
 		if err == nil {
+			lastOut = outs(q, r)
 			Q, R = read(q), read(r)
 			if is != nil {
 				is.Q, is.R = q, r
@@ -525,6 +563,7 @@ func runBidiag(t elemT, A *la.Mat, cu, cv bool, is *householderBidiagonalization
 	if v, ok := guard(0, func() error {
 		b, u, vv, err := householderBidiagonalization.Run(build(t, A), args...)
 		if err == nil {
+			lastOut = outs(b, u, vv)
 			B = read(b)
 			if !isNil(u) {
 				U = read(u)
@@ -616,6 +655,7 @@ func runTridiag(t elemT, A *la.Mat, cu bool, is *householderTridiagonalization.I
 	if v, ok := guard(0, func() error {
 		tt, u, err := householderTridiagonalization.Run(build(t, A), args...)
 		if err == nil {
+			lastOut = outs(tt, u)
 			T = read(tt)
 			if !isNil(u) {
 				U = read(u)
@@ -667,6 +707,7 @@ func runHessenberg(t elemT, A *la.Mat, cu, setZero bool, is *hessenbergReduction
 	if v, ok := guard(0, func() error {
 		h, u, err := hessenbergReduction.Run(build(t, A), args...)
 		if err == nil {
+			lastOut = outs(h, u)
 			H = read(h)
 			if !isNil(u) {
 				U = read(u)
@@ -751,6 +792,7 @@ func runQR(t elemT, in sqInput, o qrOpts, is *qrAlgorithm.InSitu) verdict {
 	if v, ok := guard(tickBudget(n), func() error {
 		h, u, err := qrAlgorithm.Run(build(t, A), args...)
 		if err == nil {
+			lastOut = outs(h, u)
 			T = read(h)
 			if !isNil(u) {
 				U = read(u)
@@ -869,6 +911,7 @@ func runEigensystem(t elemT, in sqInput, o eigOpts, is *eigensystem.InSitu) verd
 	if v, ok := guard(tickBudget(n), func() error {
 		e, vec, err := eigensystem.Run(build(t, A), args...)
 		if err == nil {
+			lastOut = outs(e, vec)
 			lam = readVec(e)
 			if !isNil(vec) {
 				V = read(vec)
@@ -1129,6 +1172,7 @@ func runSVD(t elemT, A *la.Mat, cu, cv bool, epsOpt float64, is *svd.InSitu) ver
 	if v, ok := guard(tickBudget(n), func() error {
 		s, u, vv, err := svd.Run(build(t, A), args...)
 		if err == nil {
+			lastOut = outs(s, u, vv)
 			S = read(s)
 			if !isNil(u) {
 				U = read(u)
